@@ -231,6 +231,33 @@ func (t *translator) expr(e ast.Expr) (string, ty) {
 		return t.bad(e, "index expression on %s (only sets, lists, and `v, ok := m[k]`)", t.f.src(x.X)), tNone
 	case *ast.CallExpr:
 		return t.call(x)
+	case *ast.StarExpr:
+		a, at := t.expr(x.X)
+		if at.kind != "opt" {
+			return t.bad(e, "dereference of %s which is not a nil-able pointer", t.f.src(x.X)), tNone
+		}
+		return "(" + paren(a) + ".getD default)", *at.elem // nil dereference is not modelled
+	case *ast.CompositeLit:
+		// T{Field: value, …} of a struct type of the table (fields that are not written keep Go's zero value, which
+		// Lean only accepts where the structure declares a default: otherwise the generated file does not build)
+		lt, ok := t.tab.types[t.f.src(x.Type)]
+		if !ok {
+			return t.bad(e, "composite literal of type %s which is not in the type table", t.f.src(x.Type)), tNone
+		}
+		var fs []string
+		for _, el := range x.Elts {
+			kv, ok := el.(*ast.KeyValueExpr)
+			if !ok {
+				return t.bad(e, "composite literal without field names"), tNone
+			}
+			fv, ok := t.tab.fields[fieldKey{lt.lean, t.f.src(kv.Key)}]
+			if !ok || !strings.HasPrefix(fv.lean, ".") {
+				return t.bad(e, "field %s of %s is not in the field table", t.f.src(kv.Key), lt.lean), tNone
+			}
+			v, _ := t.expr(kv.Value)
+			fs = append(fs, fv.lean[1:]+" := "+v)
+		}
+		return "({ " + strings.Join(fs, ", ") + " } : " + lt.lean + ")", lt
 	}
 	return t.bad(e, "expression %s", t.f.src(e)), tNone
 }
@@ -449,6 +476,9 @@ func outerAssigned(l []ast.Stmt) []string {
 		switch y := n.(type) {
 		case *ast.AssignStmt:
 			for _, lh := range y.Lhs {
+				if se, isSel := lh.(*ast.SelectorExpr); isSel {
+					lh = se.X // v.Field = e assigns v
+				}
 				id, ok := lh.(*ast.Ident)
 				if !ok || id.Name == "_" {
 					continue
@@ -606,6 +636,18 @@ func (t *translator) assign(x *ast.AssignStmt) string {
 			}
 		}
 		return t.bad(x, "assignment %s", t.f.src(x))
+	}
+	if se, ok := x.Lhs[0].(*ast.SelectorExpr); ok && len(x.Lhs) == 1 && len(x.Rhs) == 1 && x.Tok == token.ASSIGN {
+		// v.Field = e on a local struct VALUE (a by-value parameter or local; through a pointer it would be visible
+		// to the caller — pointer-typed locals are mapped to kinds for which no field update is emitted)
+		if id, ok := se.X.(*ast.Ident); ok {
+			if vt, ok := t.env[id.Name]; ok && vt.kind == "" {
+				if fv, ok := t.tab.fields[fieldKey{vt.lean, se.Sel.Name}]; ok && strings.HasPrefix(fv.lean, ".") {
+					v, _ := t.expr(x.Rhs[0])
+					return "let " + leanIdent(id.Name) + " := { " + leanIdent(id.Name) + " with " + fv.lean[1:] + " := " + v + " }"
+				}
+			}
+		}
 	}
 	names := make([]string, len(x.Lhs))
 	for i, lh := range x.Lhs {
